@@ -245,7 +245,7 @@ ADDENDA = {
     "C02": "Extreme breakpoint patterns (tiny/huge/half-ulp spans); results of earlier scalar calls are compared again after later calls (no aliasing); scattered tensor-product evaluation with 2-axis coordinate arrays in C, Fortran and transposed-view layouts.",
     "C03": "Rows with THB-admissible marking (refine(..., truncate=True)); warm-object variants (assemble, refine the same object in one or two calls, assemble) and a retry after a failing assemble_matrix() vs fresh objects. ~1050 states in the quick tier.",
     "C04": "Rows with repeated coarse knots, graded (non-uniform, per-direction different) coarse breakpoints, chains of single-cell marks to depth 6, warm-object cache queries; the big thorough rows are explored breadth-first up to a state cap that is reported in the evidence.",
-    "C05": "Rows with THB-admissible marking and graded breakpoints; boundary spaces (knot vectors, represent_fine); prolongate_to also on warm objects and across 2-3 refinement calls.",
+    "C05": "Rows with THB-admissible marking and graded breakpoints; boundary spaces (knot vectors, represent_fine); prolongate_to also on warm objects and across 2-3 refinement calls. Evaluation with every combination of the space's truncate flag and the explicit truncate argument (True/False/None).",
     "C06": "Atoms with mirrored non-commutative operands, product divisors, literals close to the folding constants.",
     "C07": "Scattered-point routes also with Fortran-ordered and strided coordinate arrays.",
     "C08": "3D vector forms with non-square and symmetric blocks (stokesB3D, stokesBT3D, divdiv3D) and 'twin' spaces (equal sizes, different sparsity patterns per direction) in the quick lattice; the updatable form uses the field and its derivative; an 'mlb' result is also applied to every unit vector, all results kept until the end, and compared with the reference matrix.",
